@@ -265,13 +265,25 @@ class Canon:
                     if tgt_is_name:
                         alts.add(self.p(n.value, frame, d, s2))
                     else:
-                        alts.add('unpack(%s)' % self.p(n.value, frame, d, s2))
+                        idx = None
+                        for t in n.targets:
+                            if isinstance(t, (ast.Tuple, ast.List)):
+                                for j, x in enumerate(t.elts):
+                                    if isinstance(x, ast.Name) and x.id == e.id:
+                                        idx = j
+                        if idx is not None and isinstance(n.value, (ast.Tuple, ast.List)) and \
+                                idx < len(n.value.elts):
+                            alts.add(self.p(n.value.elts[idx], frame, d, s2))
+                        elif idx is not None:
+                            alts.add('%s[%d]' % (self.p(n.value, frame, d, s2), idx))
+                        else:
+                            alts.add('unpack(%s)' % self.p(n.value, frame, d, s2))
                 elif isinstance(n, ast.AugAssign):
                     alts.add('aug(%s)' % self.p(n.value, frame, d, s2))
                 elif isinstance(n, (ast.For, ast.AsyncFor, ast.comprehension)):
                     it = n.iter
                     if isinstance(n.target, ast.Name):
-                        alts.add('elem(%s)' % self.p(it, frame, d, s2))
+                        alts.add(_elem_of(self._iter_p(it, frame, d, s2)))
                     elif isinstance(n.target, ast.Tuple) and len(n.target.elts) == 2 and isinstance(
                             it, ast.Call) and isinstance(it.func, ast.Attribute) and it.func.attr == 'items' \
                             and not it.args and all(isinstance(x, ast.Name) for x in n.target.elts):
@@ -285,6 +297,10 @@ class Canon:
                             len(n.target.elts) == 2 and isinstance(n.target.elts[1], ast.Name) and \
                             n.target.elts[1].id == e.id:
                         alts.add('elem(%s)' % self.p(it.args[0], frame, d, s2))
+                    elif isinstance(n.target, (ast.Tuple, ast.List)) and all(
+                            isinstance(x, ast.Name) for x in n.target.elts):
+                        j = [x.id for x in n.target.elts].index(e.id)
+                        alts.add('%s[%d]' % (_elem_of(self._iter_p(it, frame, d, s2)), j))
                     else:
                         alts.add('elem.part(%s)' % self.p(it, frame, d, s2))
                 elif isinstance(n, ast.AnnAssign) and n.value is not None:
@@ -582,6 +598,16 @@ class Canon:
         if isinstance(e, (ast.Attribute, ast.Subscript, ast.Name, ast.Call)):
             return self.c(e, frame)
         return None
+
+
+def _elem_of(it):
+    """a generic element of the iterable with provenance `it`: elements of a mapped
+    sequence seq[F for I] are F itself (F already speaks about elem(I))"""
+    import re as _re
+    m = _re.fullmatch(r'seq\[(.*) for ((?:(?! for ).)*?)( if .*)?\]', it)
+    if m and ' for ' not in m.group(2):
+        return m.group(1)
+    return 'elem(%s)' % it
 
 
 class ProvCanon(Canon):
@@ -1169,6 +1195,9 @@ def affine(canon, e, fr, env=None, _d=0):
             if e.func.id == 'float':
                 return inner
             return Affine({'round(%r)' % inner: 1})
+        if e.func.id in ('max', 'min') and len(e.args) == 1 and isinstance(e.args[0], (ast.Tuple, ast.List)) \
+                and len(e.args[0].elts) >= 2:
+            e = ast.Call(func=e.func, args=list(e.args[0].elts), keywords=[])
         if e.func.id in ('max', 'min') and len(e.args) >= 2:
             affs = [affine(canon, a, fr, env, d) for a in e.args]
             if all(a.is_const() for a in affs):
